@@ -488,3 +488,55 @@ def config_verbatim(ctx, rep, rule, which=None):
                               "is_critical() gives %r for a job created with critical=%s (forever=%s)" % (got, crit, forever),
                               "the run tells critical jobs from tolerated ones by is_critical(): it must be the flag")
     rep.need(rule, n, 1, "configuration obligations")
+
+
+def constructor_forwarding(ctx, rep, rule):
+    """a subclass constructor hands on to its parent every parameter it shares with it: a keyword that is
+    accepted by the subclass and taken by the parent constructor is passed unchanged (by name, positionally,
+    or inside **kwds) in the call of that parent constructor"""
+    r = ctx.roles
+    p = ctx.prog
+    n = 0
+    for base in (r.jobbase, r.sched):
+        for sub in p.subclasses(base, strict=True):
+            g = sub.methods.get('__init__')
+            if g is None:
+                continue
+            own = [x for x in list(g.params)[1:] + list(g.kwonly)]
+            calls = [c for c in walk_local(g.node) if isinstance(c, ast.Call) and isinstance(c.func, ast.Attribute)
+                     and c.func.attr == '__init__']
+            for c in calls:
+                # which parent constructor is being called
+                tgt = None
+                if isinstance(c.func.value, ast.Name) and c.func.value.id in p.classes:
+                    tgt = p.supplier(p.classes[c.func.value.id], '__init__')
+                elif isinstance(c.func.value, ast.Call) and dotted(c.func.value.func) == 'super':
+                    for k in sub.mro[1:]:
+                        if '__init__' in k.methods:
+                            tgt = k.methods['__init__']
+                            break
+                if tgt is None:
+                    continue
+                theirs = set(list(tgt.params)[1:] + list(tgt.kwonly))
+                passed = {}
+                for k in c.keywords:
+                    if k.arg is not None:
+                        passed[k.arg] = k.value
+                npos = [a for a in c.args if not isinstance(a, ast.Starred)]
+                if isinstance(c.func.value, ast.Name) and npos:
+                    npos = npos[1:]                      # explicit self
+                for pn, a in zip(list(tgt.params)[1:], npos):
+                    passed[pn] = a
+                for name in own:
+                    if name not in theirs:
+                        continue
+                    n += 1
+                    v = passed.get(name)
+                    ok = isinstance(v, ast.Name) and v.id == name
+                    rep.check(ok, rule, "%s:%d `%s` handed on to %s" % (g.module.relpath, c.lineno, name, tgt.qualname),
+                              g.qualname, "`%s` is accepted by %s but %s" % (
+                                  name, g.qualname, "passed as `%s`" % src(v) if v is not None else
+                                  "not passed to %s" % tgt.qualname),
+                              "what the caller gave as `%s` is lost (or altered) on its way to the class that uses it"
+                              % name)
+    rep.ok(rule, "%d shared constructor parameters handed on unchanged" % n)
